@@ -21,6 +21,7 @@ RULE = ('programs: every arithmetic operator and compound assignment (name and i
         'monitored exit with a numeric operand was judged; distinct = distinct (source, host names).')
 RULE += ' Host numbers include int / float / Decimal subclasses and IntEnum members.'
 RULE += " One more workload: the repository's own test-suite, run in a worker process against the sandbox copy with this check's monitors installed (the tests' assertions are not the oracle, the monitors are)."
+RULE += " Coverage-guided programs over host numbers of all types: one atheris/libFuzzer process per worker (5 s quick, 100 s thorough) runs this check's own judgement on generated program texts; programs on which an unlisted violation was recorded there are judged again by the worker."
 ASSUMPTIONS = ['size of a Decimal = length of its coefficient; of an int = number of decimal digits; a float result counts as <= 17, a float '
                'argument as its exact decimal expansion',
                'for numeric operands, "raises an arithmetic error" = an ArithmeticError subclass (decimal signals, ZeroDivisionError, OverflowError)',
@@ -280,6 +281,7 @@ def cases(ctx):
     n = 0
     if ctx.shard == ctx.nshards - 1:
         yield ('repo-tests', '', {})
+    yield ('cgf', rnd.getrandbits(30), ctx.scale(5, 100))          # coverage-guided programs, one fuzzing process per worker
     # directed witnesses (kept in the workload so the mechanisms are always exercised)
     if ctx.shard == 0:
         yield ('src', 'x = "ab"\nx *= len(x)\nx', {})
@@ -388,8 +390,36 @@ def random_number(r):
     return r.choice(POOL)
 
 
+CGF_NAMES = {'a': 10 ** 30 + 7, 'b': 2.5, 'c': [10 ** 30 + 7, D('1234567890123456789012345678')], 's': 'ab', 'l': [1, 2], 'n': D('1E+1000'), 't': True, 'm': 3}
+
+
+def case_deadline(case):
+    return case[2] + 400 if case[0] == 'cgf' else CASE_DEADLINE
+
+
+def run_cgf(case, ctx):
+    """coverage-guided programs over host numbers of all types: an atheris/libFuzzer process runs THIS check's run_case (every arithmetic node and numeric builtin
+    judged) over the instrumented sandbox copy; programs on which an unlisted violation was recorded there are judged again here"""
+    from lib import cgdriver
+    _, seed, seconds = case
+    seeds = ['a * a', 'x = a\nx *= x\nx', 'c[0] *= c[1]\nc', 's * m', 'l * 2', 'x = s\nx *= len(s)\nx', 'n ** 2', 'round(a / 3, 40)', 'int(n)', 'b * a', 't * a', 'sum([a, a, b])', '[a, c[1]] | map(v => v * v)',
+             'f = (p, q) => p ** q\nf(a, 2)', '-a * -c[1] / 7', 'x = 2\nx *= x\nx *= x\nx *= x\nx *= x\nx *= x\nx *= x\nx *= x', 'abs(a - n)', 'max(a, b) * min(a, n)']
+    out = cgdriver.run(ctx, 'check:C04:src', seed, seconds, seeds)
+    if out is None:
+        return
+    st, fired, _slow = out
+    for text in fired:
+        ctx.count('programs_on_which_the_oracle_fired_in_the_fuzzing_process')
+        before = len(ctx.violations)
+        run_case(('src', text, CGF_NAMES), ctx)
+        if len(ctx.violations) == before:
+            ctx.violation('coverage-guided fuzzing: a violation was recorded in the fuzzing process but not when the program was judged again here', ('src', text, {}), detail={'src': text[:300]})
+
+
 def run_case(case, ctx):
     import copy
+    if case[0] == 'cgf':
+        return run_cgf(case, ctx)
     ctx.M1.lambdas.clear()
     if case[0] == 'repo-tests':
         # the repository's own tests as a workload for the arithmetic monitor (every arithmetic node and numeric builtin they evaluate is judged)
